@@ -15,6 +15,7 @@ pub fn dispatch(kind: &str, v: &Value) -> Option<Outcome> {
         "grad-op" => serde_json::from_value::<GradCase>(v.clone()).ok().map(|c| c.run()),
         "history" => serde_json::from_value::<HistCase>(v.clone()).ok().map(|c| c.run()),
         "c07-scalar" | "c07-any" => crate::c07::dispatch(kind, v),
+        "c06" | "forward-op-sequence" => crate::c06::dispatch(kind, v),
         "c03-any" => crate::c03::dispatch(kind, v),
         _ => None,
     }
